@@ -46,6 +46,17 @@ def install(ctx, rec=None, scrubbers=True):
     core.rebind_function(
         orig_deduce, core.wrap_function(orig_deduce, None, after_deduce))
 
+    # -- SecFinder -------------------------------------------------------
+    def after_findsec(tok, args, kwargs, result, exc):
+        ctx.hit('hook:findall_matching_sec')
+        self = args[0]
+        rc = kwargs.get('require_colon', args[3] if len(args) > 3 else False)
+        rec.add('find_sec', require_colon=str(rc),
+                layout=kwargs.get('layout', args[2] if len(args) > 2 else None),
+                n_matches=len(self.matches),
+                flags=[str(f) for f in self.flags])
+    core.wrap_method(PP.SecFinder, 'findall_matching_sec', None, after_findsec)
+
     # -- ChunkParser -----------------------------------------------------
     CP = PP.ChunkParser
     counter = [0]
